@@ -379,3 +379,49 @@ Fixpoint parse_resp_extra (fuel : nat) (tl2 : bool) (qid : N) (e : resp_extra) (
 Definition parse_response (tl2 : bool) (r : bytes) : res parsed_resp :=
   do (qid, r1) <- long_r r;
   parse_resp_extra (S (length r1)) tl2 qid resp_extra0 0 r1.
+
+(** * The handler context and the longpoll save / restore (server_hctx.go, server.go, server_conn_tcp.go)
+
+    [hctx_fields] = the struct [handlerContextFields] embedded in HandlerContext -- restricted to the members
+    that decide what is written into a response: actorID, requestExtraFieldsmask, reqTag, bodyFormatTL2,
+    noResult.  It is exactly what [toLongpollContext] copies into the per-longpoll record (longpollHctx) and what
+    [finishLongpoll2] copies back into the FRESH HandlerContext that FinishLongpoll / SendEmptyResponse hand to
+    the user; the query ID travels in the LongpollHandle.  Everything else of the original context is gone by
+    then (it was released when the SyncHandler returned). *)
+Record hctx_fields := { hf_actor : N; hf_mask : N; hf_tag : N; hf_tl2 : bool; hf_noresult : bool }.
+
+Record hctx := { h_qid : N; h_fields : hctx_fields }.
+
+(** ParseInvokeReq + fillInvokeReqInternals *)
+Definition hctx_of_request (q : parsed_req) : hctx :=
+  {| h_qid := q_id q;
+     h_fields := {| hf_actor := q_actor q; hf_mask := rq_flags (q_extra q); hf_tag := q_tag q;
+                    hf_tl2 := q_tl2 q; hf_noresult := bit (rq_flags (q_extra q)) 7 |} |}.
+
+(** the names of the members of handlerContextFields the model relies on (pinned against the Go struct by
+    reflection on every run, op "lpfields") *)
+Inductive hfield := HF_actorID | HF_requestExtraFieldsmask | HF_reqTag | HF_bodyFormatTL2 | HF_noResult.
+Definition saved_fields : list hfield := [HF_actorID; HF_requestExtraFieldsmask; HF_reqTag; HF_bodyFormatTL2; HF_noResult].
+
+Record longpoll_rec := { lp_fields : hctx_fields }.   (* longpollHctx without canceller / deadline *)
+
+(** hctx.StartLongpoll -> Server.toLongpollContext: (LongpollHandle.QueryID, longpollHctx) *)
+Definition start_longpoll (h : hctx) : N * longpoll_rec := (h_qid h, {| lp_fields := h_fields h |}).
+
+(** FinishLongpoll / SendEmptyResponse -> finishLongpoll2: a fresh context, queryID from the handle,
+    handlerContextFields from the record *)
+Definition finish_longpoll (qid : N) (l : longpoll_rec) : hctx := {| h_qid := qid; h_fields := lp_fields l |}.
+
+(** SendResponse -> prepareResponseBody on a handler context *)
+Definition hctx_respond (h : hctx) (e : resp_extra) (err : option (N * bytes)) (body : bytes) : presp :=
+  let f := h_fields h in
+  let body' := match err with Some (code, desc) => error_body (h_qid h) code desc | None => body end in
+  if hf_noresult f then PNoResult
+  else
+    let hd := response_header (h_qid h) (hf_mask f) (hf_tl2 f) e (match err with Some _ => true | None => false end) in
+    if maxPacketLen - packetOverhead <? lenN body' + lenN hd then PTooLarge else PWire (hd ++ body').
+
+(** a request answered directly / after a longpoll *)
+Definition respond_direct (q : parsed_req) := hctx_respond (hctx_of_request q).
+Definition respond_longpoll (q : parsed_req) :=
+  let '(qid, l) := start_longpoll (hctx_of_request q) in hctx_respond (finish_longpoll qid l).
